@@ -592,23 +592,19 @@ impl World {
         let result: Arc<StdMutex<Option<R>>> = Arc::new(StdMutex::new(None));
         let r2 = result.clone();
         let w2 = world.clone();
-        let handle = std::thread::Builder::new()
-            .stack_size(1 << 20)
-            .name("sim-t0".into())
-            .spawn(move || {
-                CUR.with(|c| *c.borrow_mut() = Some((w2.clone(), 0)));
-                let res = std::panic::catch_unwind(std::panic::AssertUnwindSafe(f));
-                let msg = match res {
-                    Ok(r) => {
-                        *r2.lock().unwrap() = Some(r);
-                        None
-                    }
-                    Err(p) => Some(panic_message(&p)),
-                };
-                CUR.with(|c| *c.borrow_mut() = None);
-                w2.finish_thread(0, msg);
-            })
-            .expect("spawn sim thread 0");
+        run_on_carrier(Box::new(move || {
+            CUR.with(|c| *c.borrow_mut() = Some((w2.clone(), 0)));
+            let res = std::panic::catch_unwind(std::panic::AssertUnwindSafe(f));
+            let msg = match res {
+                Ok(r) => {
+                    *r2.lock().unwrap() = Some(r);
+                    None
+                }
+                Err(p) => Some(panic_message(&p)),
+            };
+            CUR.with(|c| *c.borrow_mut() = None);
+            w2.finish_thread(0, msg);
+        }));
         // wait for completion
         let outcome = {
             let mut g = world.lock();
@@ -639,15 +635,59 @@ impl World {
         };
         let aborted = outcome.deadlock.is_some() || outcome.step_cap_hit;
         if aborted {
-            // parked threads are leaked on purpose (see DESIGN §3.2)
-            drop(handle);
+            // parked carrier threads are leaked on purpose (see DESIGN §3.2)
             (None, outcome)
         } else {
-            let _ = handle.join();
             let r = result.lock().unwrap().take();
             (r, outcome)
         }
     }
+}
+
+
+// ------------------------------------------------------------------------------------------
+// Carrier pool: simulated threads run on pooled OS threads. Creating an OS thread per simulated
+// thread serialises all harness workers on the process-wide mmap lock; pooled carriers do not.
+// ------------------------------------------------------------------------------------------
+
+type Job = Box<dyn FnOnce() + Send + 'static>;
+
+struct Carrier {
+    tx: std::sync::mpsc::Sender<Job>,
+}
+
+static IDLE: StdMutex<Vec<Carrier>> = StdMutex::new(Vec::new());
+static CARRIERS_CREATED: AtomicU64 = AtomicU64::new(0);
+
+pub fn carriers_created() -> u64 {
+    CARRIERS_CREATED.load(AO::Relaxed)
+}
+
+fn run_on_carrier(job: Job) {
+    let c = { IDLE.lock().unwrap_or_else(|p| p.into_inner()).pop() };
+    let c = match c {
+        Some(c) => c,
+        None => {
+            let (tx, rx) = std::sync::mpsc::channel::<Job>();
+            let n = CARRIERS_CREATED.fetch_add(1, AO::Relaxed);
+            let tx2 = tx.clone();
+            std::thread::Builder::new()
+                .stack_size(1 << 20)
+                .name(format!("sim-carrier-{n}"))
+                .spawn(move || {
+                    while let Ok(job) = rx.recv() {
+                        job();
+                        // back to the pool
+                        IDLE.lock()
+                            .unwrap_or_else(|p| p.into_inner())
+                            .push(Carrier { tx: tx2.clone() });
+                    }
+                })
+                .expect("spawn carrier thread");
+            Carrier { tx }
+        }
+    };
+    c.tx.send(job).expect("carrier alive");
 }
 
 pub fn panic_message(p: &Box<dyn std::any::Any + Send>) -> String {
@@ -930,7 +970,6 @@ pub struct SimJoin<T> {
     pub(crate) tid: Tid,
     pub(crate) world: Arc<World>,
     pub(crate) result: Arc<StdMutex<Option<std::thread::Result<T>>>>,
-    pub(crate) real: Option<std::thread::JoinHandle<()>>,
 }
 
 pub(crate) fn spawn_sim<F, T>(w: &Arc<World>, me: Tid, f: F) -> SimJoin<T>
@@ -951,52 +990,52 @@ where
     let result: Arc<StdMutex<Option<std::thread::Result<T>>>> = Arc::new(StdMutex::new(None));
     let r2 = result.clone();
     let w2 = w.clone();
-    let real = std::thread::Builder::new()
-        .stack_size(1 << 20)
-        .name(format!("sim-t{tid}"))
-        .spawn(move || {
-            // wait until scheduled for the first time
-            {
-                let mut g = w2.lock();
-                let mycv = g.threads[tid].cv.clone();
-                while g.current != tid {
-                    g = match mycv.wait(g) {
-                        Ok(g) => g,
-                        Err(p) => p.into_inner(),
-                    };
-                }
+    run_on_carrier(Box::new(move || {
+        // wait until scheduled for the first time
+        {
+            let mut g = w2.lock();
+            let mycv = g.threads[tid].cv.clone();
+            while g.current != tid {
+                g = match mycv.wait(g) {
+                    Ok(g) => g,
+                    Err(p) => p.into_inner(),
+                };
             }
-            CUR.with(|c| *c.borrow_mut() = Some((w2.clone(), tid)));
-            let res = std::panic::catch_unwind(std::panic::AssertUnwindSafe(f));
-            let msg = match &res {
-                Ok(_) => None,
-                Err(p) => Some(panic_message(p)),
-            };
-            *r2.lock().unwrap() = Some(res);
-            CUR.with(|c| *c.borrow_mut() = None);
-            w2.finish_thread(tid, msg);
-        })
-        .expect("spawn sim thread");
+        }
+        CUR.with(|c| *c.borrow_mut() = Some((w2.clone(), tid)));
+        let res = std::panic::catch_unwind(std::panic::AssertUnwindSafe(f));
+        let msg = match &res {
+            Ok(_) => None,
+            Err(p) => Some(panic_message(p)),
+        };
+        *r2.lock().unwrap() = Some(res);
+        CUR.with(|c| *c.borrow_mut() = None);
+        w2.finish_thread(tid, msg);
+    }));
     // spawning is a scheduling point
     w.switch(me, Want::Run);
     SimJoin {
         tid,
         world: w.clone(),
         result,
-        real: Some(real),
     }
 }
 
 impl<T> SimJoin<T> {
-    pub fn join(mut self) -> std::thread::Result<T> {
+    pub fn join(self) -> std::thread::Result<T> {
         match current() {
             Some((w, me)) if Arc::ptr_eq(&w, &self.world) => {
                 w.switch(me, Want::Join(self.tid));
             }
-            _ => {}
-        }
-        if let Some(h) = self.real.take() {
-            let _ = h.join();
+            _ => {
+                // joined from outside its world: wait for the world to finish the thread
+                loop {
+                    if self.world.lock().threads[self.tid].finished {
+                        break;
+                    }
+                    std::thread::yield_now();
+                }
+            }
         }
         let r = self.result.lock().unwrap().take();
         r.expect("joined thread left no result")
